@@ -5,7 +5,7 @@
    oracle that minimises -s hand identical training sets to the Gaussian process, hence issue identical trials. *)
 From Coq Require Import List ZArith Bool Lia PeanoNat.
 Import ListNotations.
-From KT Require Import Lifecycle LSym.
+From KT Require Import Lifecycle LSym LIdle.
 
 Section Bayes.
 Context {V Sc R GP RS Vec : Type}.
@@ -103,6 +103,23 @@ Proof.
   induction ts as [|t rest IH]; simpl; [lia|].
   destruct (t_status t); simpl; try lia.
   destruct (nfeat gp) as [n|]; [destruct (Nat.eqb n _)|]; simpl; lia.
+Qed.
+
+(* ---- C11: the Bayesian oracle never answers IDLE by itself, and its own STOPPED is the warm-up sampler giving up *)
+Theorem bpopulate_idle mx : (forall r id, snd (fst (rpop r id)) <> IDLE) -> idle_only_if_busy (bpopulate mx).
+Proof.
+  intros Hr a ts busy id. unfold bpopulate. destruct a as [[r gp] rs].
+  destruct (Nat.ltb (ncompleted ts) (nip r)).
+  - pose proof (Hr r id) as H. destruct (rpop r id) as [[r' st] v]. simpl in *. intros E. now elim H.
+  - destruct (optimize _ rs). simpl. discriminate.
+Qed.
+Theorem bpopulate_stopped mx a ts busy id : snd (fst (bpopulate mx a ts busy id)) = STOPPED ->
+  let '(r, _, _) := a in ncompleted ts < nip r /\ snd (fst (rpop r id)) = STOPPED.
+Proof.
+  unfold bpopulate. destruct a as [[r gp] rs].
+  destruct (Nat.ltb (ncompleted ts) (nip r)) eqn:E.
+  - apply Nat.ltb_lt in E. destruct (rpop r id) as [[r' st] v]. simpl. auto.
+  - destruct (optimize _ rs). simpl. discriminate.
 Qed.
 End Bayes.
 Print Assumptions bayes_search_sym.
